@@ -14,7 +14,7 @@ import (
 // pyOps are the operations compared with Python's decimal module. Exp/Ln/Log10/Pow are left
 // out: libmpdec rounds them correctly but always half-even, apd is specified to one ulp (C12).
 var pyOps = map[string]bool{"add": true, "sub": true, "mul": true, "quo": true, "quointeger": true, "rem": true,
-	"sqrt": true, "abs": true, "neg": true, "round": true, "quantize": true, "rtie": true, "rtiv": true, "reduce": true, "cmp": true}
+	"sqrt": true, "abs": true, "neg": true, "round": true, "setstring": true, "quantize": true, "rtie": true, "rtiv": true, "reduce": true, "cmp": true}
 
 // DiffOpts narrows what Differential compares.
 type DiffOpts struct {
@@ -39,7 +39,11 @@ func Differential(c Case, o Out, opt DiffOpts, st *core.Stats) error {
 	if !Binary(c.Op) {
 		y = core.Dec{Coeff: "0"}
 	}
-	a, err := pyref.Ask(c.Op, ctx, c.X, y, c.QExp)
+	pyOp := c.Op
+	if pyOp == "setstring" {
+		pyOp = "round" // context-aware parsing of a spelling of X is the context rounding of X
+	}
+	a, err := pyref.Ask(pyOp, ctx, c.X, y, c.QExp)
 	if err != nil {
 		core.InfraExit(err.Error())
 	}
